@@ -167,6 +167,7 @@ type c33Pipe struct {
 	resetMarked bool
 	tainted     bool
 	pollsQ      int64
+	acceptsQ    atomic.Int64 // Accept calls made by the pipeline (outermost driver) since quiescence
 	inflight    map[int64]context.Context
 	created     int // handlers created (seen through the logger)
 	terminated  int // handlers that logged "Pipeline terminated."
@@ -1046,6 +1047,7 @@ func (m *c33Mon) quiesce() {
 	m.quiesced = true
 	for _, p := range m.byKey {
 		p.pollsQ = 0
+		p.acceptsQ.Store(0)
 	}
 	m.ev("quiesce", nil, 0, 0, 0, "faults off, production finished")
 	m.mu.Unlock()
@@ -1071,7 +1073,9 @@ func (m *c33Mon) progress() (done bool, exhausted []*c33Pipe) {
 			continue
 		}
 		done = false
-		if p.pollsQ > p.budget {
+		// a pipeline that neither finishes nor polls again may be retrying one page for ever: its Accept
+		// attempts are budgeted too (once faults are off every attempt succeeds, one per page)
+		if p.pollsQ > p.budget || p.acceptsQ.Load() > p.budget+50 {
 			exhausted = append(exhausted, p)
 		}
 	}
